@@ -712,3 +712,324 @@ func c15Handle(o *c15Out, r *rand.Rand, tier string) error {
 	}
 	return nil
 }
+
+// ---------- family fault (round 5): a rejected write while other callers hold later identifiers ----------
+
+var errC15Rejected = fmt.Errorf("memconn: this frame is rejected (the connection stays usable)")
+
+var c15FaultOff int32 // the interleaving could not be realised once: the family switches itself off
+
+func c15PktTag(pkt []byte) string {
+	typ := pkt[0] >> 4
+	_, used := c15Varint(pkt[1:])
+	body := pkt[1+used:]
+	off := 0
+	if typ == 8 || typ == 10 {
+		off = 2
+	} else if typ != 3 {
+		return ""
+	}
+	if len(body) < off+2 {
+		return ""
+	}
+	tl := int(body[off])<<8 | int(body[off+1])
+	if len(body) < off+2+tl {
+		return ""
+	}
+	return string(body[off+2 : off+2+tl])
+}
+
+// c15NewFaultWorld: like c15NewWorld, but Transport.Write of the packet whose topic is faultTag is
+// held (on the writer's goroutine, i.e. under the client's write lock) until gate is closed and then
+// fails with a non-fatal error: nothing is sent, the connection stays open.
+func c15NewFaultWorld(faultTag string) (*c15World, chan struct{}, chan struct{}, error) {
+	w := &c15World{byTag: map[string]*c15Rec{}, cycleHit: make(chan struct{})}
+	held := make(chan struct{})
+	gate := make(chan struct{})
+	var once sync.Once
+	s := &session{}
+	s.conn = newMemConn(1, func(c *memConn, pkt []byte) error {
+		if pkt[0]&0xF0 == 0x10 {
+			c.send(connackOK)
+			return nil
+		}
+		w.onPkt(s, pkt) // records the identifier and signals that the request reached Transport.Write
+		if c15PktTag(pkt) == faultTag {
+			fail := false
+			once.Do(func() { fail = true })
+			if fail {
+				close(held)
+				select {
+				case <-gate:
+				case <-time.After(c15Wait):
+				}
+				return errC15Rejected
+			}
+		}
+		return nil
+	})
+	s.cli = &mqtt.BaseClient{Transport: s.conn}
+	ctx, cancel := ctxTimeout(c15Wait)
+	defer cancel()
+	if _, err := s.cli.Connect(ctx, "cid"); err != nil {
+		return nil, nil, nil, err
+	}
+	w.s = s
+	return w, held, gate, nil
+}
+
+// c15RunFault: prelude requests (stay outstanding), then the faulty request B whose write is held;
+// while it is held the concurrent callers C take their identifiers one after the other (each start
+// is followed by a wait until the counter has moved) and queue up behind the write lock; the gate
+// opens, B's write fails, the C's go out; then the requests D one after the other, optionally B's
+// retry handle on the same client; finally everything is acknowledged.
+func c15RunFault(o *c15Out, s uint32, prelude []c15Req, faulty c15Req, conc, after []c15Req, runHandle bool) error {
+	if c15GiveUp() || atomic.LoadInt32(&c15FaultOff) != 0 {
+		o.skipped++
+		return nil
+	}
+	faultIdx := len(prelude)
+	faultTag := fmt.Sprintf("c0/r%d", faultIdx)
+	w, held, gate, err := c15NewFaultWorld(faultTag)
+	if err != nil {
+		return err
+	}
+	defer w.close()
+	cli := w.s.cli
+	cli.VerifSetIDLast(s)
+	ctx, cancel := ctxTimeout(5 * time.Minute)
+	defer cancel()
+	var recs []*c15Rec
+	var hin, obs, desc []string
+	stuck := ""
+	issue := func(rq c15Req) *c15Rec {
+		rec := w.newRec(0, len(recs), rq)
+		recs = append(recs, rec)
+		hin = append(hin, "HReq ("+rq.coq()+")")
+		w.start(ctx, rec)
+		return rec
+	}
+	seen := func(rec *c15Rec, what string) {
+		obs = append(obs, rec.coqIssue())
+		desc = append(desc, fmt.Sprintf("%s%s->%d", what, rec.req.desc(), rec.obsID()))
+		o.kinds[rec.req.desc0()]++
+	}
+	ended := func(j int, what string) {
+		hin = append(hin, fmt.Sprintf("HAck %d", j))
+		obs = append(obs, fmt.Sprintf("OAck %d", j))
+		desc = append(desc, fmt.Sprintf("%s#%d", what, j))
+	}
+	seq := func(rq c15Req, what string) bool {
+		rec := issue(rq)
+		if !w.waitWrote(rec) {
+			stuck = fmt.Sprintf("request %s (%s) never reached the wire", rec.tag, rq.desc())
+			return false
+		}
+		if !rq.tracked() && !w.waitDone(rec) {
+			stuck = "a QoS 0 publish did not return"
+			return false
+		}
+		seen(rec, what)
+		return true
+	}
+	gateOpen := false
+	openGate := func() {
+		if !gateOpen {
+			gateOpen = true
+			close(gate)
+		}
+	}
+	defer openGate()
+	for _, rq := range prelude {
+		if !seq(rq, "") {
+			break
+		}
+	}
+	var recB *c15Rec
+	var recC []*c15Rec
+	notRealised := false
+	if stuck == "" {
+		recB = issue(faulty)
+		select {
+		case <-held:
+			seen(recB, "held:")
+		case <-time.After(c15WaitDur()):
+			atomic.AddInt32(&c15Expired, 1)
+			stuck = "the faulty request never reached Transport.Write"
+		}
+	}
+	if stuck == "" {
+		for _, rq := range conc {
+			before := cli.VerifIDLast()
+			rec := issue(rq)
+			recC = append(recC, rec)
+			// the caller takes its identifier and then waits for the write lock that B holds. Its
+			// identifier is settled when the counter has moved AND does not stand on a zero low half:
+			// at the wrap newID needs two increments (the first yields 0, newID recurses), and a caller
+			// started between the two would overtake it — legal (the order in which concurrent callers
+			// obtain identifiers is not fixed by the property), but the history sent to Coq names the
+			// callers in the order they are started
+			t0 := time.Now()
+			settled := func() bool {
+				v := cli.VerifIDLast()
+				return v != before && uint16(v) != 0
+			}
+			for n := 0; !settled(); n++ {
+				runtime.Gosched()
+				if n%256 == 255 && time.Since(t0) > 10*time.Second {
+					notRealised = true
+					break
+				}
+			}
+			if notRealised {
+				break
+			}
+		}
+	}
+	openGate()
+	if notRealised {
+		// identifiers are not taken ahead of the write lock (any more): the interleaving this family is
+		// about does not exist in this tree; not a violation
+		atomic.StoreInt32(&c15FaultOff, 1)
+		o.faultNotRealised++
+		return nil
+	}
+	if stuck == "" {
+		if !w.waitDone(recB) {
+			stuck = "the request whose write was rejected did not return"
+		} else if recB.err == nil {
+			stuck = "the request whose write was rejected returned no error"
+		}
+	}
+	if stuck == "" {
+		for _, rec := range recC {
+			if !w.waitWrote(rec) {
+				stuck = fmt.Sprintf("request %s never reached the wire after the write lock was released", rec.tag)
+				break
+			}
+			if !rec.req.tracked() && !w.waitDone(rec) {
+				stuck = "a QoS 0 publish did not return"
+				break
+			}
+			seen(rec, "behind the lock:")
+		}
+	}
+	if stuck == "" {
+		ended(faultIdx, "write rejected")
+		for _, rq := range after {
+			if !seq(rq, "") {
+				break
+			}
+		}
+	}
+	if stuck == "" && runHandle {
+		if h, ok := recB.err.(mqtt.ErrorWithRetry); ok {
+			hreq := faulty
+			if faulty.Kind == 'p' {
+				hreq.Given = recB.obsID()
+			}
+			rec := w.newRec(0, len(recs), hreq)
+			rec.tag = recB.tag // the handle re-sends the same topic
+			recs = append(recs, rec)
+			hin = append(hin, "HReq ("+hreq.coq()+")")
+			// the first record under this topic is done with: hand the topic to the retransmission
+			w.mu.Lock()
+			w.byTag[recB.tag] = rec
+			w.mu.Unlock()
+			go func() { rec.done <- h.Retry(ctx, cli) }()
+			if !w.waitWrote(rec) {
+				stuck = "the retransmission never reached the wire"
+			} else {
+				seen(rec, "retry handle:")
+			}
+		}
+	}
+	if stuck == "" {
+		for j, rec := range recs {
+			if j == faultIdx || !rec.req.tracked() || rec.finished {
+				continue
+			}
+			w.ack(rec)
+			if !w.waitDone(rec) {
+				stuck = fmt.Sprintf("request %s (%s, identifier %d on the wire) did not complete after its acknowledgement", rec.tag, rec.req.desc(), rec.id)
+				break
+			}
+			ended(j, "ack")
+		}
+	}
+	fin := cli.VerifIDLast()
+	c := map[string]interface{}{"start_counter": s, "outstanding_before": c15ReqDescs(prelude), "write_held_then_rejected": faulty.desc(),
+		"callers_taking_identifiers_meanwhile": c15ReqDescs(conc), "requests_afterwards": c15ReqDescs(after),
+		"retry_handle_run_on_same_client": runHandle, "observed": desc, "counter_afterwards": fin}
+	if stuck != "" {
+		o.violation("stuck", map[string]interface{}{"scenario": c, "what": stuck})
+	}
+	for _, an := range w.anomaly {
+		o.violation("anomaly", an)
+	}
+	o.fault = append(o.fault, cTuple(cN(uint64(s)), cListInline(hin), cListInline(obs), cN(uint64(fin))))
+	o.m.Families["fault"] = append(o.m.Families["fault"], c)
+	o.requests += len(recs)
+	o.starts[c15StartClass(s)]++
+	if len(conc) > 0 && len(after) > 0 {
+		o.nontriv[fmt.Sprint("fault", s, c15ReqDescs(prelude), faulty.desc(), c15ReqDescs(conc), c15ReqDescs(after), runHandle)] = true
+	}
+	if o.faultSamples < 1 && len(conc) >= 1 && len(after) >= 1 && len(recs) <= 7 {
+		o.faultSamples++
+		o.m.Samples = append(o.m.Samples, c)
+	}
+	return nil
+}
+
+func c15ReqDescs(rs []c15Req) []string {
+	out := []string{}
+	for _, r := range rs {
+		out = append(out, r.desc())
+	}
+	return out
+}
+
+func c15Fault(o *c15Out, r *rand.Rand, tier string) error {
+	n := 60
+	switch tier {
+	case "thorough":
+		n = 800
+	case "search":
+		n = 200
+	}
+	sub, unsub, p1, p2 := c15Req{Kind: 's'}, c15Req{Kind: 'u'}, c15Req{Kind: 'p', QoS: 1}, c15Req{Kind: 'p', QoS: 2}
+	// the shape of the round-5 seeded change, for every kind of faulty packet, at ordinary and
+	// wrap-around counters
+	for _, s := range []uint32{100, 0xFFFD, 0xFFFE, 0xFFFF, 0xFFFFFFFD, 0xFFFFFFFF} {
+		for _, f := range []c15Req{sub, unsub, p1, p2} {
+			if err := c15RunFault(o, s, nil, f, []c15Req{sub}, []c15Req{unsub, p1}, false); err != nil {
+				return err
+			}
+		}
+		if err := c15RunFault(o, s, []c15Req{p1}, sub, []c15Req{p1, unsub}, []c15Req{p2, sub}, true); err != nil {
+			return err
+		}
+	}
+	auto := func() c15Req {
+		rq := c15RandReq(r)
+		rq.Given = 0
+		return rq
+	}
+	list := func(lo, hi int) []c15Req {
+		var out []c15Req
+		for i := lo + r.Intn(hi-lo+1); i > 0; i-- {
+			out = append(out, auto())
+		}
+		return out
+	}
+	for i := 0; i < n; i++ {
+		f := auto()
+		for !f.tracked() {
+			f = auto()
+		}
+		if err := c15RunFault(o, c15PickStart(r), list(0, 3), f, list(0, 3), list(0, 4), r.Intn(2) == 0); err != nil {
+			return err
+		}
+	}
+	return nil
+}
